@@ -18,7 +18,9 @@ impl Fx for TableFx {
 }
 
 pub fn run() -> i32 {
-    let dir = "/repo/tests/inputs";
+    let repo = crate::runner::repo_dir();
+    let dir = format!("{repo}/tests/inputs");
+    let dir = dir.as_str();
     let Ok(rd) = std::fs::read_dir(dir) else {
         eprintln!("cannot read {dir}");
         return 2;
@@ -30,7 +32,7 @@ pub fn run() -> i32 {
     for n in names {
         let stem = n.trim_end_matches(".cgt");
         let Ok(text) = std::fs::read_to_string(format!("{dir}/{n}")) else { continue };
-        let Ok(golden_txt) = std::fs::read_to_string(format!("/repo/tests/json/{stem}.json")) else {
+        let Ok(golden_txt) = std::fs::read_to_string(format!("{repo}/tests/json/{stem}.json")) else {
             skipped += 1;
             continue;
         };
